@@ -85,6 +85,21 @@ template <class C> void Exec<C>::exec_op(int i) {
     case OP_MKLIST: case OP_COMPOSE: case OP_COMPOSE_MALLOC: case OP_DISSECT: case OP_FREEQL:
         exec_query(i, op, o); break;
     case OP_ESCAPE: case OP_FILENAME: exec_misc(i, op, o); break;
+    case OP_A_MALLOC: case OP_A_CALLOC: case OP_A_REALLOCARRAY: {
+        // allocator probe through the manager table itself (exercises the emulation / decoration layer of a completed manager inside
+        // histories and concurrent worlds): one request, released at once if it was granted
+        MgrInst& m = mgr_of(op.mgr);
+        if (!m.table || m.kind == MK_INCOMPLETE) break;
+        o.skipped = false;
+        void* p = nullptr; UriMemoryManager* t = m.table; size_t n1 = (size_t)op.n1, n2 = (size_t)op.n2; int kind = op.kind;
+        event("op %d allocator probe %s(%zu, %zu) mgr=%d", i, opkind_name(kind), n1, n2, op.mgr);
+        bool ok = call(i, TAG_STR + 50, op.mgr, FaultPlan(), [&] { p = kind == OP_A_MALLOC ? t->malloc(t, n1) : kind == OP_A_CALLOC ? t->calloc(t, n1, n2) : t->reallocarray(t, nullptr, n1, n2); });
+        int e = errno;
+        if (!ok) { o.aborted = true; break; }
+        if (p) { if (!call(i, TAG_STR + 50, op.mgr, FaultPlan(), [&] { t->free(t, p); })) { o.aborted = true; break; } o.digest = "granted"; }
+        else o.digest = "NULL errno=" + std::to_string(e);
+        break;
+    }
     default: break;
     }
     if (g.abort_run) o.aborted = true;
@@ -354,7 +369,16 @@ template <class C> void Exec<C>::exec_tostring(int i, const Op& op, OpOut& o) {
         if (!to_text(i, u, &text, &rc, &req)) { o.aborted = true; return; }
         o.rc = rc; o.aux = req; o.digest = text;
     } else {
-        if (!chars_required(i, u, &req, &rc)) { o.aborted = true; return; }
+        // One time in four the length is learned from a write with ample room instead of the measuring call, so that no measuring call
+        // lies between whatever changed the object and the writes that follow (what the writer does must not depend on an earlier
+        // measuring call); the measuring call is then made last and must agree.
+        bool measure_last = false;
+        if (op.cap == CAP_ALL && ((plan.run_seed >> 19) + (unsigned)i) % 4 == 0) {
+            std::string t0; int r0 = 0, l0 = -1;
+            if (!tostring_cap(i, u, 8192, true, -1, &t0, &r0, &l0)) { o.aborted = true; return; }
+            if (r0 == URI_SUCCESS && l0 >= 0) { req = l0; rc = URI_SUCCESS; measure_last = true; text = t0; }
+        }
+        if (!measure_last && !chars_required(i, u, &req, &rc)) { o.aborted = true; return; }
         o.rc = rc; o.aux = req;
         if (rc != URI_SUCCESS) { violate(V_SIZE_CONTRACT, "chars-required failed with " + std::to_string(rc) + " on a valid URI", false); return; }
         if (req < 0 || req > (1 << 22)) { violate(V_SIZE_CONTRACT, "chars-required returned " + std::to_string(req), false); return; }
@@ -379,6 +403,11 @@ template <class C> void Exec<C>::exec_tostring(int i, const Op& op, OpOut& o) {
                     n++;
                 }
             o.digest = text; o.reqs = n;
+            if (measure_last && !g.abort_run) {
+                int req2 = -1, rc2 = 0;
+                if (!chars_required(i, u, &req2, &rc2)) { o.aborted = true; return; }
+                if (rc2 != URI_SUCCESS || req2 != req) violate(V_SIZE_CONTRACT, "chars-required says " + std::to_string(req2) + " (rc " + std::to_string(rc2) + ") but the text written with ample room has " + std::to_string(req) + " characters", false);
+            }
         } else {
             if (!tostring_cap(i, u, op.cap, (op.opt & 1) != 0, req, &text, &rc)) { o.aborted = true; return; }
             o.rc = rc; o.digest = text;
